@@ -48,6 +48,11 @@ func VerifNewCollector(input CollectorInput, c VerifClock) (*CollectingProcess, 
 	return cp, nil
 }
 
+// VerifNewCollectorNoDrainClock is VerifNewCollectorNoDrain with the caller's clock.
+func VerifNewCollectorNoDrainClock(input CollectorInput, c VerifClock) (*CollectingProcess, error) {
+	return initCollectingProcess(input, verifClockAdapter{c})
+}
+
 // VerifNewCollectorNoDrain is like VerifNewCollector but leaves the message channel to the caller.
 func VerifNewCollectorNoDrain(input CollectorInput) (*CollectingProcess, error) {
 	return initCollectingProcess(input, realClock{})
